@@ -360,9 +360,17 @@ async def real_sequence(loop: vloop.VirtualLoop, ctx, trial: int) -> None:
     sim = SimLog(rng)
     for _ in range(rng.choice((0, 2, 3, 5, 8, 20))):
         sim.new()
-    air = airmod.Air(loop)
-    mute: set[int] = set()  # log indexes whose request goes unanswered
     other_reader: set[int] = set()  # log indexes at which another reader's reply is heard instead of ours (once)
+
+    def slow_echo(kind: str, frame: str, target: str) -> list[float]:
+        # the stick is slow to echo a request made while another reader is being answered: the controller's reply to
+        # that reader is heard while our request still awaits its echo (not only while it awaits its reply)
+        if kind == "echo" and frame[:2] == "RQ" and " 0418 " in frame and int(frame.split(" ")[-1][4:6], 16) in other_reader and trial % 2:
+            return [0.06]
+        return airmod.no_faults(kind, frame, target)
+
+    air = airmod.Air(loop, slow_echo)
+    mute: set[int] = set()  # log indexes whose request goes unanswered
     answered = [0]
     on_answer: list[Any] = []
     history: list[str] = []
